@@ -7,7 +7,11 @@
 //! Observation: `trace=<marker:$?,…> status=<exit status>` where the trace comes from the `probe`
 //! built-in (prints `$?`, preserves it).
 
+use std::cell::RefCell;
 use std::fmt::Write as _;
+use std::rc::Rc;
+use yash_env::system::r#virtual::{FileBody, Inode};
+use yash_env::system::Mode;
 use yash_env::builtin::{Builtin, Type};
 use yash_env::semantics::{ExitStatus, Field};
 use yash_env::variable::Scope;
@@ -84,7 +88,11 @@ fn sx_item(i: &Item) -> String {
     s
 }
 fn sx_name(n: &str) -> &str {
-    if n == ":" { "colon" } else { n }
+    match n {
+        ":" => "colon",
+        "/bin/xtin" => "xtpath",
+        n => n,
+    }
 }
 fn sx_cmd(c: &Cmd) -> String {
     match c {
@@ -210,6 +218,10 @@ fn name(x: &Sx) -> Option<&'static str> {
         "f2" => "f2",
         "ok" => "ok",
         "colon" => ":",
+        "sbin" => "sbin",
+        "sbout" => "sbout",
+        "xtin" => "xtin",
+        "xtpath" => "/bin/xtin",
         _ => return None,
     })
 }
@@ -646,6 +658,15 @@ pub fn render_with(seed: u64, lines: &[Line], real: bool) -> String {
 // ---------------------------------------------------------------------------------------------
 // generator
 
+/// Command names in rank order. A function body only calls names of lower rank, so the call graph is
+/// acyclic. The first `CALLABLE` can run a function of that name; `:` (special built-in) and
+/// `/bin/xtin` (a slash) can be defined as functions too but such a function is never reached.
+/// Without a function: `f*` is not found (127); `ok` is a regular built-in (0); `sbin`/`sbout` are
+/// substitutive built-ins of which only `sbin` has a file in `$PATH` (0 / 127); `xtin` is only a file
+/// in `$PATH` (the simulated execve fails: 126).
+pub const NAMES: [&str; 9] = ["f0", "f1", "f2", "ok", "sbin", "sbout", "xtin", ":", "/bin/xtin"];
+pub const CALLABLE: usize = 7;
+
 pub struct Gen {
     /// only functions of rank below this may be called here (keeps the call graph acyclic even
     /// under redefinition: the body of a function of rank r only calls ranks < r)
@@ -706,15 +727,17 @@ impl Gen {
             67..=71 => Cmd::Ret(if r % 2 == 0 { None } else { Some(r as u32 % 7) }),
             72..=74 => Cmd::Exit(if r % 2 == 0 { None } else { Some(r as u32 % 5) }),
             75..=84 => {
-                let names = ["f0", "f1", "f2", "ok"];
                 let callable: Vec<usize> =
-                    self.defined.iter().copied().filter(|r| *r < self.call_limit.min(4)).collect();
-                if self.call_limit == 0 || self.rng.chance(1, 8) {
+                    self.defined.iter().copied().filter(|r| *r < self.call_limit.min(CALLABLE)).collect();
+                if self.rng.chance(1, 16) {
+                    // a name with a slash: always an external utility, whatever is defined
+                    Cmd::Call("/bin/xtin")
+                } else if self.call_limit == 0 || self.rng.chance(1, 8) {
                     Cmd::Call(":")
                 } else if !callable.is_empty() && self.rng.chance(4, 5) {
-                    Cmd::Call(names[*self.rng.pick(&callable)])
+                    Cmd::Call(NAMES[*self.rng.pick(&callable)])
                 } else {
-                    Cmd::Call(names[self.rng.below(self.call_limit.min(4))])
+                    Cmd::Call(NAMES[self.rng.below(self.call_limit.min(CALLABLE))])
                 }
             }
             85..=87 => Cmd::Unknown,
@@ -851,8 +874,8 @@ impl Gen {
                 Cmd::Case(items)
             }
             _ => {
-                let names = ["f0", "f1", "f2", "ok", ":"];
-                let rank = self.rng.below(5);
+                let names = NAMES;
+                let rank = self.rng.below(NAMES.len());
                 let saved = self.call_limit;
                 self.call_limit = saved.min(rank);
                 let body = match self.rng.below(3) {
@@ -860,7 +883,7 @@ impl Gen {
                     _ => Cmd::Group(self.list(d, 3)),
                 };
                 self.call_limit = saved;
-                if rank < 4 && !self.defined.contains(&rank) {
+                if rank < CALLABLE && !self.defined.contains(&rank) {
                     self.defined.push(rank);
                 }
                 Cmd::Def(names[rank], Box::new(body))
@@ -888,8 +911,8 @@ impl Gen {
             // define one or two functions up front so that later calls reach a body
             let mut defs = vec![];
             for _ in 0..1 + self.rng.below(2) {
-                let names = ["f0", "f1", "f2", "ok"];
-                let rank = self.rng.below(4);
+                let names = NAMES;
+                let rank = self.rng.below(CALLABLE);
                 let saved = self.call_limit;
                 self.call_limit = saved.min(rank);
                 let mut body = self.list(1, 3);
@@ -957,10 +980,21 @@ pub fn observe(seed: u64, lines: &[Line]) -> String {
     cfg.max_rounds = 50_000;
     let (o, _) = run_with(
         cfg,
-        |env, _| {
+        |env, state| {
             env.builtins.insert("tick", Builtin::new(Type::Mandatory, tick_main));
             // `ok`: a regular built-in returning 0 (a function of that name must win over it)
             env.builtins.insert("ok", Builtin::new(Type::Mandatory, ok_main));
+            // the command search beyond functions: substitutive built-ins and `$PATH`
+            env.builtins.insert("sbin", Builtin::new(Type::Substitutive, ok_main));
+            env.builtins.insert("sbout", Builtin::new(Type::Substitutive, ok_main));
+            for path in ["/bin/sbin", "/bin/xtin"] {
+                let mut inode = Inode::new(Vec::new());
+                inode.body = FileBody::Regular { content: vec![], is_native_executable: true };
+                inode.permissions.set(Mode::USER_EXEC, true);
+                state.borrow_mut().file_system.save(path, Rc::new(RefCell::new(inode))).unwrap();
+            }
+            let mut path = env.variables.get_or_new("PATH", Scope::Global);
+            let _ = path.assign("/nonexistent:/bin", None);
             // a read-only variable for `(asgerr)`
             let mut ro = env.variables.get_or_new("ro", Scope::Global);
             let _ = ro.assign("0", None);
